@@ -63,6 +63,8 @@ func main() {
 		} else {
 			cpu1(*seed, *n, *tier)
 		}
+	case "cpuruns":
+		cpuRuns(*seed, *n)
 	case "mem04", "mem05", "mem06", "mem07":
 		if *replay != "" {
 			memReplay(*replay)
